@@ -19,6 +19,10 @@ pub struct SinkCfg {
 	/// the history is continued on the healed sink and, if every later call returns Ok, the stream must be the baseline
 	#[serde(default)]
 	pub recover: bool,
+	/// every `n`-th sink call over the WHOLE life of the writer reports Interrupted (0 = off): what a signal-heavy
+	/// process sees; the number of interruptions grows with the history instead of being one or three
+	#[serde(default)]
+	pub interrupt_every: u32,
 }
 
 #[derive(Clone, Debug, Serialize, Deserialize)]
@@ -49,8 +53,10 @@ struct RunOut {
 }
 
 fn run_with(spec: &FileSpec, cfg: &SinkCfg, baseline_len: usize, stop_after_fault: bool) -> RunOut {
-	let budget = 64 + 8 * baseline_len as u64 + 8 * cfg.faults.len() as u64;
-	let sink = SimSink::new(cfg.plan.clone(), cfg.vectored)
+	let budget = (64 + 8 * baseline_len as u64 + 8 * cfg.faults.len() as u64) * if cfg.interrupt_every > 0 { 2 } else { 1 };
+	let sink = SimSink::new(cfg.plan.clone(), cfg.vectored);
+	let sink = if cfg.interrupt_every >= 2 { sink.with_interrupt_every(cfg.interrupt_every as u64, 1) } else { sink };
+	let sink = sink
 		.with_faults(cfg.faults.clone())
 		.with_step_budget(budget)
 		.keep_log();
@@ -95,6 +101,7 @@ fn enumerate_cfgs(spec: &FileSpec, seed: u64, fault_cap: usize, baseline_len: us
 				vectored,
 				faults: vec![],
 				recover: false,
+				interrupt_every: 0,
 			});
 		}
 		cfgs.push(SinkCfg {
@@ -102,12 +109,17 @@ fn enumerate_cfgs(spec: &FileSpec, seed: u64, fault_cap: usize, baseline_len: us
 			vectored,
 			faults: vec![],
 			recover: false,
+				interrupt_every: 0,
 		});
 		if vectored {
 			for n in [1usize, 2] {
-				cfgs.push(SinkCfg { plan: AcceptPlan::WholeSlices(n), vectored, faults: vec![], recover: false });
+				cfgs.push(SinkCfg { plan: AcceptPlan::WholeSlices(n), vectored, faults: vec![], recover: false, interrupt_every: 0 });
 			}
 		}
+	}
+	// interruptions all along the writer's life (their number grows with the history)
+	for (plan, vectored, every) in [(AcceptPlan::All, true, 2u32), (AcceptPlan::Fixed(1), rng.bool(), 2), (AcceptPlan::Fixed(7), false, 3), (AcceptPlan::Fixed(19), true, 2), (AcceptPlan::Cycle(vec![1 + rng.usize(5), 1 + rng.usize(30)]), rng.bool(), 5)] {
+		cfgs.push(SinkCfg { plan, vectored, faults: vec![], recover: false, interrupt_every: every });
 	}
 	// fault enumeration on two base plans
 	let bases = [
@@ -116,12 +128,14 @@ fn enumerate_cfgs(spec: &FileSpec, seed: u64, fault_cap: usize, baseline_len: us
 			vectored: rng.bool(),
 			faults: vec![],
 			recover: false,
+				interrupt_every: 0,
 		},
 		SinkCfg {
 			plan: AcceptPlan::Fixed(*rng.pick(&[3usize, 7, 16, 19])),
 			vectored: rng.bool(),
 			faults: vec![],
 			recover: false,
+				interrupt_every: 0,
 		},
 	];
 	for base in bases {
@@ -193,7 +207,7 @@ fn enumerate_cfgs(spec: &FileSpec, seed: u64, fault_cap: usize, baseline_len: us
 	// write of a block flush; failing it leaves nothing of that block in the sink
 	let dry = run_with(
 		spec,
-		&SinkCfg { plan: AcceptPlan::All, vectored: true, faults: vec![], recover: false },
+		&SinkCfg { plan: AcceptPlan::All, vectored: true, faults: vec![], recover: false, interrupt_every: 0 },
 		baseline_len,
 		false,
 	);
@@ -204,6 +218,7 @@ fn enumerate_cfgs(spec: &FileSpec, seed: u64, fault_cap: usize, baseline_len: us
 				vectored: true,
 				faults: vec![SinkFault { at_call: i, kind }],
 				recover: true,
+				interrupt_every: 0,
 			});
 		}
 	}
@@ -272,10 +287,15 @@ impl Prop for C16 {
 			push_ops: true,
 			scale: 1,
 		};
-		let mut spec = container::gen_filespec(rng, &profile);
+		let mut spec = if rng.chance(1, 40) {
+			// a LONG history (hundreds of blocks): partial accepts and interruptions all along the writer's life
+			container::gen_long_spec(rng, &SpecProfile { heavy_codecs: false, ..profile }, 400)
+		} else {
+			container::gen_filespec(rng, &profile)
+		};
 		spec.end = End::IntoInner;
 		// one workload in twelve carries a block of several KiB, so that a write takes many partial accepts
-		if spec.schema == crate::ast::Ty::Bytes || rng.chance(1, 12) {
+		if !spec.ops.iter().any(|o| matches!(o, container::Op::Many { .. })) && (spec.schema == crate::ast::Ty::Bytes || rng.chance(1, 12)) {
 			spec.schema = crate::ast::Ty::Bytes;
 			spec.ops = vec![
 				container::Op::Blob { len: 100 + rng.below(300) as u32, seed: rng.next_u64(), compressible: true },
@@ -284,24 +304,27 @@ impl Prop for C16 {
 				container::Op::Blob { len: rng.below(50) as u32, seed: rng.next_u64(), compressible: false },
 			];
 		}
+		let spec_is_long = spec.ops.iter().any(|o| matches!(o, container::Op::Many { .. }));
 		Scn {
 			spec,
 			cfgs: Cfgs::Enumerate {
 				seed: rng.next_u64(),
-				fault_cap: if tier == Tier::Quick { 150 } else { 600 },
+				fault_cap: if spec_is_long { 40 } else if tier == Tier::Quick { 150 } else { 600 },
 			},
 		}
 	}
 
 	fn exec(&self, scn: &Scn) -> Outcome {
 		let mut out = Outcome::default();
-		let spec = &scn.spec;
-		container::count_scale(spec, &mut out);
+		container::count_scale(&scn.spec, &mut out);
+		let expanded = scn.spec.expanded();
+		let spec = &*expanded;
 		let base_cfg = SinkCfg {
 			plan: AcceptPlan::All,
 			vectored: true,
 			faults: vec![],
 			recover: false,
+				interrupt_every: 0,
 		};
 		let base = run_with(spec, &base_cfg, 1 << 20, false);
 		out.evals += 1;
@@ -496,9 +519,11 @@ impl Prop for C16 {
 				vectored: true,
 				faults: vec![],
 				recover: false,
+				interrupt_every: 0,
 			};
-			let base = run_with(&scn.spec, &base_cfg, 1 << 20, false);
-			for cfg in enumerate_cfgs(&scn.spec, *seed, *fault_cap, base.accepted.len()) {
+			let expanded = scn.spec.expanded();
+			let base = run_with(&expanded, &base_cfg, 1 << 20, false);
+			for cfg in enumerate_cfgs(&expanded, *seed, *fault_cap, base.accepted.len()) {
 				c.push(Scn {
 					spec: scn.spec.clone(),
 					cfgs: Cfgs::Only(vec![cfg]),
